@@ -83,7 +83,12 @@ def ref_members(r, own_sheet, dc=0, dr=0):
 # generation of abstract workbooks
 # --------------------------------------------------------------------------
 
-def serial_to_datetime(serial):
+EPOCH_1904 = datetime.datetime(1904, 1, 1)
+
+
+def serial_to_datetime(serial, date1904=False):
+    if date1904:
+        return EPOCH_1904 + datetime.timedelta(days=serial)
     return EPOCH + datetime.timedelta(days=serial)
 
 
@@ -109,7 +114,7 @@ def gen_const(rng):
         return {'form': 'e', 'value': rng.choice(ERRORS)}
     if r < 0.95:
         serial = rng.choice([43831, 36525, 44000.5, 40000.25, 61, 45000.75])
-        return {'form': 'd', 'text': repr(serial),
+        return {'form': 'd', 'text': repr(serial), 'serial': serial,
                 'value': worlds.enc(serial_to_datetime(serial))}
     return {'form': 'empty', 'value': None}
 
@@ -260,7 +265,13 @@ def gen_workbook(rng, max_sheets=4):
             sh['cells'][f'{col_letter(c)}{r + 1}'] = {
                 'form': 'f', 'parts': [rng.choice(cell_names), '+1'],
                 'cached': gen_cached(rng)}
-    return {'sheets': sheets, 'names': dn}
+    # aliases: a second name for the same target
+    if dn and rng.random() < 0.3 and pool:
+        dn[pool.pop()] = dict(rng.choice(list(dn.values())))
+    wb = {'sheets': sheets, 'names': dn}
+    if rng.random() < 0.12:
+        wb['date1904'] = True
+    return wb
 
 
 # --------------------------------------------------------------------------
@@ -363,7 +374,10 @@ def render_xlsx(wb, knobs=None):
         parts[f'xl/worksheets/sheet{i + 1}.xml'] = (
             f'{XML}<worksheet xmlns="{NS_MAIN}">{dim}<sheetData>{body}'
             f'</sheetData></worksheet>')
-    wbx = (f'{XML}<workbook xmlns="{NS_MAIN}" xmlns:r="{NS_REL}"><sheets>')
+    wbx = (f'{XML}<workbook xmlns="{NS_MAIN}" xmlns:r="{NS_REL}">')
+    if wb.get('date1904'):
+        wbx += '<workbookPr date1904="1"/>'
+    wbx += '<sheets>'
     for i, sh in enumerate(sheets):
         wbx += (f'<sheet name={quoteattr(sh["name"])} sheetId="{i + 1}" '
                 f'r:id="rId{i + 1}"/>')
@@ -462,9 +476,13 @@ def expected_cells(wb, ignore):
                 if cached is not None:
                     cv = cached['value']
                     if spec.get('date_style') and cached['form'] == 'n':
-                        cv = worlds.enc(serial_to_datetime(cv))
+                        cv = worlds.enc(serial_to_datetime(
+                            cv, wb.get('date1904')))
                 out[a] = {'formula': '=' + render_formula(
                     spec['parts'], dc, dr), 'value': cv}
+            elif spec['form'] == 'd' and wb.get('date1904'):
+                out[a] = {'formula': None, 'value': worlds.enc(
+                    serial_to_datetime(spec['serial'], True))}
             else:
                 out[a] = {'formula': None, 'value': spec['value']}
     return out
@@ -507,6 +525,8 @@ def direct_contents(wb, ignore):
                 s = spec.get('shared')
                 dc, dr = (s['dc'], s['dr']) if s else (0, 0)
                 d[a] = '=' + render_formula(spec['parts'], dc, dr)
+            elif spec['form'] == 'd' and wb.get('date1904'):
+                d[a] = serial_to_datetime(spec['serial'], True)
             else:
                 d[a] = worlds.dec(spec['value'])
         out.append((sh['name'], d))
